@@ -111,6 +111,9 @@ type ReplayResult struct {
 	Notes   []string `json:"notes"`
 }
 
+// nativeExtraEnv is appended to the environment of native replays (VERIF_TWIN=1 in twin mode).
+var nativeExtraEnv []string
+
 // nativeReplay runs cases against the natively compiled working tree of /repo.
 func nativeReplay(verifDir, pkg string, cases []ReplayCase, tag string) ([]ReplayResult, error) {
 	work := filepath.Join(verifDir, "work", fmt.Sprintf("replay-%s-%d", tag, os.Getpid()))
@@ -143,6 +146,7 @@ func nativeReplay(verifDir, pkg string, cases []ReplayCase, tag string) ([]Repla
 	cmd.Dir = repoDir
 	cmd.Env = append(os.Environ(), "GOFLAGS=-mod=mod", "GOPROXY=off", "GOSUMDB=off", "GOTOOLCHAIN=local",
 		"VERIF_REPLAY="+inPath, "VERIF_REPLAY_OUT="+outPath)
+	cmd.Env = append(cmd.Env, nativeExtraEnv...)
 	t0 := time.Now()
 	out, err := cmd.CombinedOutput()
 	if _, serr := os.Stat(outPath); serr != nil {
@@ -160,4 +164,67 @@ func nativeReplay(verifDir, pkg string, cases []ReplayCase, tag string) ([]Repla
 		return nil, fmt.Errorf("native replay returned %d results for %d cases", len(res), len(cases))
 	}
 	return res, nil
+}
+
+// cmdReplay re-runs a recorded counterexample (a file under /verif/replays) against
+// the natively compiled working tree of /repo. Exit 1 (with a VIOLATION line) if the
+// recorded clause still fails, 0 if it no longer does, 2 on trouble.
+func cmdReplay(args []string) {
+	if len(args) < 1 {
+		fmt.Fprintln(os.Stderr, "usage: vcheck replay <replay.json>")
+		os.Exit(2)
+	}
+	b, err := os.ReadFile(args[0])
+	if err != nil {
+		fmt.Fprintln(os.Stderr, "replay:", err)
+		os.Exit(2)
+	}
+	var rec struct {
+		Property string   `json:"property"`
+		Harness  string   `json:"harness"`
+		Params   []int64  `json:"params"`
+		Pkg      string   `json:"pkg"`
+		Model    []uint64 `json:"model"`
+		Clause   string   `json:"clause"`
+		Kind     string   `json:"kind"`
+		Input    string   `json:"input_bytes"`
+	}
+	if err := json.Unmarshal(b, &rec); err != nil {
+		fmt.Fprintln(os.Stderr, "replay:", err)
+		os.Exit(2)
+	}
+	if rec.Pkg == "" {
+		rec.Pkg = pkgCM
+	}
+	if rec.Kind == "engine" {
+		fmt.Printf("replay: clause %s is an engine-level observation (store into frozen state); it has no native counterpart - re-run ./check %s\n", rec.Clause, rec.Property)
+		os.Exit(2)
+	}
+	verif := defaultVerifDir
+	res, err := nativeReplay(verif, rec.Pkg, []ReplayCase{{Harness: rec.Harness, Params: rec.Params, Model: rec.Model}}, "replay")
+	os.Remove(filepath.Join(verif, "work")) // only if empty: another check may be using it
+	if err != nil {
+		fmt.Println("replay error:", err)
+		os.Exit(2)
+	}
+	r := res[0]
+	fmt.Printf("harness=%s params=%v input=%q\nnative outcome=%s %s\nfailed clauses=%v\n", rec.Harness, rec.Params, rec.Input, r.Outcome, r.Detail, r.Failed)
+	for _, n := range r.Notes {
+		fmt.Printf("note: %q\n", n)
+	}
+	repro := false
+	switch rec.Kind {
+	case "panic":
+		repro = r.Outcome == "panic"
+	case "budget":
+		repro = r.Outcome == "timeout"
+	default:
+		repro = contains(r.Failed, rec.Clause)
+	}
+	if repro {
+		abs, _ := filepath.Abs(args[0])
+		fmt.Printf("VIOLATION property=%s replay=%s\n", rec.Property, abs)
+		os.Exit(1)
+	}
+	fmt.Printf("clause %s holds on this input with the current /repo\n", rec.Clause)
 }
